@@ -36,8 +36,8 @@ CHECKS = {
          "first two sentences of the property at the level of the binary format: the gzip layer, file I/O and the incremental refresh over file-system histories (os.ReadDir/Stat) are outside the claim; totality on fully arbitrary bytes is bounded by the stated lengths, deeper stages are reached with the count fields case-split"),
  "C17": ("write-set confinement, a schedule-independent sufficient condition for the absence of data races: a real variable TrueType font and a real static CFF font are parsed by the real loader inside the interpreter, every object existing afterwards (the shared Font, all package-level variables and tables) is frozen, and the per-goroutine API (NewFace, SetPpem/SetVariations/SetCoords, NominalGlyph, advances, extents incl. the per-face cache, outlines, names, metrics) runs with symbolic rune and glyph id: the solver decides that no reachable store targets a frozen object",
          "interleavings themselves are not explored and 'same results as running alone' follows only from confinement; two fonts: one TrueType/gvar/HVAR variable font (symbolic glyph id) and one static CFF font (five case-split glyph ids through the charstring interpreter); shaping (harfbuzz), fontscan.FontMap, CFF2 and bitmap fonts are outside the claim; a frozen-write counter-example has no native symptom and is reported when its input replays natively along a complete path"),
- "C18": ("the real propagateFlags and unsafeToBreak/setGlyphFlags/infosSetGlyphFlags on arbitrary buffers (symbolic masks, monotone clusters, buffer flags, cluster levels): flag uniformity inside clusters and exact flag placement decided for all buffers within the glyph-count bound; and the cut law for ONE application of a GPOS lookup (real dispatchApply, skipping iterator, context matching with nested lookups, pair/cursive/mark attachment) on symbolic buffers: applying the lookup to the piece on one side of an unflagged cluster boundary positions that piece as on the whole buffer",
-         "flag uniformity and the flag-setting kernel are decided for arbitrary buffers; the cut law is decided per lookup application for nine small concrete GPOS lookups on symbolic buffers (H-C18-step-gpos); GSUB applications (out-buffer, ligatures), the complex shapers, kern/morx and the whole-text cut-and-reshape on real fonts are outside the claim"),
+ "C18": ("the real propagateFlags and unsafeToBreak/setGlyphFlags/infosSetGlyphFlags on arbitrary buffers (symbolic masks, monotone clusters, buffer flags, cluster levels): flag uniformity inside clusters and exact flag placement decided for all buffers within the glyph-count bound; and the cut law at the level of ONE lookup on symbolic buffers: one application at a position (real dispatchApply, skipping iterator, context matching with nested lookups, pair/cursive/mark attachment) and one lookup over the whole buffer through the real applyString/applyForward/applyBackward driver, for GPOS and for GSUB (ligature, multiple, chained context with exception rules, reverse chaining): the pieces on either side of an unflagged cluster boundary give, concatenated, the result of the whole buffer",
+         "flag uniformity and the flag-setting kernel are decided for arbitrary buffers; the cut law is decided per lookup for nine GPOS and six GSUB small concrete lookups on symbolic buffers of 2..3 (4) glyphs (H-C18-step-gpos, H-C18-string-gpos, H-C18-string-gsub); sequences of several lookups, the complex shapers (Arabic joining, Indic, Hangul...), kern/morx, fallback positioning and the whole-text cut-and-reshape on real fonts are outside the claim"),
  "C19": ("bounded symbolic execution of the real WriteTTF/checksum/writeTTFHeader and NewLoader/Tables/RawTable; an SMT solver decides every assertion for all table contents, tags and spare-capacity bytes within the table-count/length bound",
          "table count and lengths bounded"),
  "C20": ("single symbolic code point (all 2^32 rune values) through the real Lookup*/Compose/Decompose/LookupMirrorChar/LookupScript code and the real generated tables; all 256 Direction values; all byte strings up to the bound for NewLanguage; binarySearchLang over every small sorted table",
